@@ -11,7 +11,9 @@ import (
 	"fmt"
 	"io"
 	"os"
+	"runtime"
 	"runtime/debug"
+	rtrace "runtime/trace"
 	"strings"
 	"syscall"
 	"testing"
@@ -74,6 +76,7 @@ func lookup(world, profile string) (worldDef, bool) {
 }
 
 func TestMain(m *testing.M) {
+	sim.DebugTicks = runtime.KgSchedTicks
 	fs := flag.NewFlagSet("klog", flag.ContinueOnError)
 	klog.InitFlags(fs)
 	_ = fs.Set("logtostderr", "false")
@@ -103,6 +106,10 @@ func TestWorker(t *testing.T) {
 	out, err := os.OpenFile(*outFlag, os.O_CREATE|os.O_WRONLY|os.O_APPEND, 0o644)
 	if err != nil {
 		t.Fatal(err)
+	}
+	if os.Getenv("KG_DUMPG") != "" { // debugging aid: which goroutines exist before the first run
+		buf := make([]byte, 1<<20)
+		fmt.Fprintf(os.Stderr, "%s\n", buf[:runtime.Stack(buf, true)])
 	}
 	def, ok := lookup(spec.World, spec.Profile)
 	if !ok {
@@ -135,9 +142,14 @@ func TestWorker(t *testing.T) {
 		if def.single {
 			// the world ends the process from inside its bubble
 			exitNow = func() {
+				if os.Getenv("KG_DUMPG") == "2" { // which goroutines exist at the end of the run
+					buf := make([]byte, 8<<20)
+					fmt.Fprintf(os.Stderr, "%s\n", buf[:runtime.Stack(buf, true)])
+				}
 				finish()
 				out.Sync()
 				out.Close()
+				rtrace.Stop() // flushes -test.trace, if any (debugging aid)
 				syscall.Exit(0)
 			}
 		}
